@@ -234,6 +234,10 @@ func (g *pgen) text() J {
 		ws := strings.Repeat(pick(g.r, []string{" ", "\n", " \t", "  \n "}), n)[:n]
 		return nText(pick(g.r, []string{ws, "x" + ws, ws + "y", "x" + ws + "y" + ws, ws + "é" + ws}))
 	}
+	if g.r.Intn(40) == 0 {
+		// a long chunk without any white space (inline data, a long URL, CJK text)
+		return nText(strings.Repeat(pick(g.r, []string{"QUJDRA", "http://h/p?q=1&", "日本語", "<i>"}), 8+g.r.Intn(40)))
+	}
 	return nText(pick(g.r, genTexts))
 }
 
